@@ -7,7 +7,8 @@ package main
 // taken out: the operands of set operators and the bodies of inline tables belong to it (shape letters of c18.qry).
 //
 // x [NOT] IN (SELECT …) is inside (its sub-query is listed with the others, in text order).
-// Outside the model (counted, not compared): EXISTS, ANY / ALL, row values outside IN, a value sub-query whose text starts
+// EXISTS (SELECT …) is inside too (one value).
+// Outside the model (counted, not compared): ANY / ALL, row values outside IN, a value sub-query whose text starts
 // with a parenthesis, parenthesised tables, back-quoted identifiers, function calls, LATERAL, CASE.
 
 import (
@@ -110,7 +111,7 @@ func (w *nqWalk) collectValue(v reflect.Value, subs *[]string) {
 			return
 		case "RowValue", "RowValueList":
 			w.outside = true // row values outside IN: row comparisons
-		case "Exists", "Any", "All", "CaseExpr", "TableFunction", "JsonQuery", "FormatSpecifiedFunction", "Function", "AggregateFunction", "AnalyticFunction", "ListFunction":
+		case "Any", "All", "CaseExpr", "TableFunction", "JsonQuery", "FormatSpecifiedFunction", "Function", "AggregateFunction", "AnalyticFunction", "ListFunction":
 			w.outside = true
 		case "Table":
 			if !v.Interface().(parser.Table).Lateral.IsEmpty() {
@@ -263,6 +264,8 @@ var nqWitnesses = []string{
 	"select (select 1) t from u", "select a from (select 1) t (select 2)",
 	"select a from t where a in (select 1)", "select a from t where a not in (select b from (select 2) u) and a in ((select 3))", "select a in (select 1), (select 2) in (select 3 union select 4)",
 	"select a in (select 1, 2)", "select a in (select 1) (select 2)", "select a in (select 1", "select a in select 1", "select a from t where a in (with w as (select 1) select b from w)",
+	"select exists (select 1)", "select a from t where not exists (select b from u where exists (select 2)) and exists (select 3) = true or a in (select 4)", "select exists (select 1) + 1, -exists (select 2)",
+	"select exists 1", "select exists (1)", "select exists", "select exists ((select 1))", "select 1 as exists (select 1)", "select a from exists (select 1)", "select exists (select 1) (select 2)", "select exists (select 1) x",
 	// outside the model (counted): a sub-query text that starts with a parenthesis, parenthesised tables
 	"select ((select 1) union (select 2))", "select a in ((select 1) union (select 2))", "select a from ((select 1))", "select a from ((select 1) t)",
 }
@@ -293,6 +296,10 @@ func genNqText(g *hc.Gen, d int) string {
 			return sub() + " " + g.Pick("+", "*", "||", "-") + " " + col()
 		case 3:
 			return g.Pick("-", "not ", "") + "(" + sub() + ")"
+		case 4:
+			if g.Intn(2) == 0 && nqBudget > 0 {
+				return g.Pick("", "not ") + "exists " + sub()
+			}
 		}
 		return col()
 	}
@@ -305,8 +312,8 @@ func genNqText(g *hc.Gen, d int) string {
 		case 2:
 			return col() + " " + g.Pick("", "not ") + "in (" + val() + g.Pick("", ", "+val()) + ")"
 		case 3:
-			if g.Intn(2) == 0 {
-				return val() + " " + g.Pick("", "not ") + "in " + sub()
+			if g.Intn(2) == 0 && nqBudget > 1 {
+				return col() + " " + g.Pick("", "not ") + "in " + sub()
 			}
 			return sub() + " is " + g.Pick("", "not ") + "null"
 		case 4:
